@@ -130,6 +130,73 @@ def rebalance(files, wd, tag, n):
     return outs
 
 
+def rebalance_by_case(files, cases, wd, tag, n):
+    """records grouped by the case they refer to (`X <rec> <case> …` / `WF <case> …`), groups dealt largest-first onto the
+    lightest shard, a group larger than a fair share split over several shards; every shard gets a case file holding ONLY
+    the cases its records name.  (The judge keeps every case of its case file in memory: with the union of all cases each
+    of the 16 judges of a thorough run needed 7-10 GB and the kernel killed them.)  -> (record files, case files)"""
+    groups, order = {}, []
+    for f in files:
+        cur = None
+        with open(f) as h:
+            for l in h:
+                if l.startswith("FILE "):
+                    continue
+                if l.startswith("X ") or l.startswith("WF "):
+                    w = l.split(" ", 3)
+                    cid = w[2] if l.startswith("X ") else w[1]
+                    cur = [l]
+                    if cid not in groups:
+                        groups[cid] = []; order.append(cid)
+                    groups[cid].append(cur)
+                elif cur is not None:
+                    cur.append(l)
+    size = {c: sum(len(x) for r in rs for x in r) for c, rs in groups.items()}
+    total = sum(size.values()) or 1
+    fair = total / n
+    parts = []      # (bytes, case id, records)
+    for c in order:
+        k = max(1, min(n, int(size[c] / (1.25 * fair)) + 1)) if size[c] > 1.25 * fair else 1
+        rs = groups[c]
+        for j in range(k):
+            chunk = rs[j::k]
+            if chunk:
+                parts.append((sum(len(x) for r in chunk for x in r), c, chunk))
+    parts.sort(key=lambda t: -t[0])
+    load = [0] * n
+    dealt = [[] for _ in range(n)]
+    for b, c, chunk in parts:
+        i = min(range(n), key=lambda j: (load[j], j))
+        load[i] += b
+        dealt[i].append((c, chunk))
+    blocks = {}
+    for f in cases:
+        cur, cid = [], None
+        with open(f) as h:
+            for l in h:
+                if l.startswith("CASE "):
+                    if cid is not None:
+                        blocks[cid] = cur
+                    cur, cid = [], l.split()[1]
+                cur.append(l)
+        if cid is not None:
+            blocks[cid] = cur
+    recs = [wd / ("%s.%d.txt" % (tag, i)) for i in range(n)]
+    cfs = [wd / ("%s.cases.%d.txt" % (tag, i)) for i in range(n)]
+    for i in range(n):
+        need = []
+        with open(recs[i], "w") as h:
+            for c, chunk in dealt[i]:
+                if c not in need:
+                    need.append(c)
+                for r in chunk:
+                    h.writelines(r)
+        with open(cfs[i], "w") as h:
+            for c in need:
+                h.writelines(blocks.get(c, []))
+    return recs, cfs
+
+
 def all_cases(cases, wd):
     allc = wd / "cases.all.txt"
     with open(allc, "w") as f:
@@ -241,9 +308,10 @@ def run_c07(ctx):
     cases = gen(ctx, drv, wd, n)
     per = ctx.pick(25, 400)
     muts = oc.run_shards(drv, lambda i: ["mutate", cases[i], per, 0, 1], n, lambda i: wd / ("mut.%d.txt" % i), ctx.seed, timeout=14400)
-    allc = all_cases(cases, wd)
-    recs = rebalance(muts, wd, "mutrec", n)
-    r = oc.judge_shards(judge, lambda i: ["mut", allc, recs[i]], n)
+    recs, rcs = rebalance_by_case(muts, cases, wd, "mutrec", n)
+    for f in muts:
+        Path(f).unlink()            # the records live on in mutrec.*: the thorough tier writes ~15 GB here
+    r = oc.judge_shards(judge, lambda i: ["mut", rcs[i], recs[i]], n)
     rep = report(ctx, "C07", drv, r["fails"], "ovmb-mut")
     st = r["stats"]
     cov = proof.proof_coverage(res)
@@ -276,11 +344,12 @@ def run_c18(ctx):
     cases = gen(ctx, drv, wd, n)
     flt = oc.run_shards(drv, lambda i: ["faults", cases[i], ctx.tier, 0, 1], n, lambda i: wd / ("flt.%d.txt" % i), ctx.seed, timeout=14400)
     # write faults rebuild the meshes themselves (shard i of n); they are judged against the union of the cases
-    allc = all_cases(cases, wd)
     wfl = oc.run_shards(drv, lambda i: ["wfaults", ctx.tier, i, n], n, lambda i: wd / ("wflt.%d.txt" % i), ctx.seed, timeout=14400)
     t1 = time.time()
-    recs = rebalance(list(flt) + list(wfl), wd, "fltrec", n)
-    r = oc.judge_shards(judge, lambda i: ["mut", allc, recs[i]], n)
+    recs, rcs = rebalance_by_case(list(flt) + list(wfl), cases, wd, "fltrec", n)
+    for f in list(flt) + list(wfl):
+        Path(f).unlink()
+    r = oc.judge_shards(judge, lambda i: ["mut", rcs[i], recs[i]], n)
     log("[c18] driver %.0fs, judge %.0fs" % (t1 - t0, time.time() - t1))
     rep = report(ctx, "C18", drv, r["fails"], "ovmb-fault")
     st = r["stats"]
